@@ -356,3 +356,66 @@ theorem goodMats_matFrom {sel : Sel} (hsel : IsArgmax sel) (m : Hmm) : ∀ (os :
     exact ⟨ix_stepV_ptr_lt hsel m col o hj, ix_stepV_val sel m col o hj, fun k hk => ix_stepV_ub hsel m col o hj hk⟩
 
 end RbV.Hmm
+
+namespace RbV.Hmm
+
+/-! ### from index-wise facts about the two `Array2`s to `GoodMats`; the traced path -/
+
+theorem ix_set_self {l : List Nat} {j v : Nat} (h : j < l.length) : ix (l.set j v) j = v := by
+  simp [ix, List.getD, h]
+
+theorem ix_set_ne {l : List Nat} {j c v : Nat} (h : c ≠ j) : ix (l.set j v) c = ix l c := by
+  simp [ix, List.getD, List.getElem?_set_ne (Ne.symm h)]
+
+theorem goodMats_of_index (m : Hmm) : ∀ (os : List Nat) (vs fs : List (List Nat)) (col : List Nat),
+    vs.length = os.length → fs.length = os.length →
+    (∀ t, t < os.length → GoodStep m ((col :: vs)[t]?.getD []) (os[t]?.getD 0) (vs[t]?.getD [], fs[t]?.getD [])) →
+    GoodMats m col os (vs.zip fs) := by
+  intro os
+  induction os with
+  | nil =>
+    intro vs fs col hv hf _
+    have : vs = [] := List.length_eq_zero_iff.mp hv
+    subst this
+    exact GoodMats.nil col
+  | cons o os ih =>
+    intro vs fs col hv hf h
+    cases vs with
+    | nil => simp at hv
+    | cons v vs =>
+      cases fs with
+      | nil => simp at hf
+      | cons f fs =>
+        simp only [List.zip_cons_cons]
+        refine GoodMats.cons (cf := (v, f)) ?_ (ih vs fs v (by simpa using hv) (by simpa using hf) ?_)
+        · simpa using h 0 (by simp)
+        · intro t ht
+          simpa using h (t + 1) (by simp; omega)
+
+theorem lastCol_zip : ∀ (vs fs : List (List Nat)) (col : List Nat), vs.length = fs.length →
+    lastCol col (vs.zip fs) = (col :: vs)[vs.length]?.getD [] := by
+  intro vs
+  induction vs with
+  | nil => intro fs col _; simp [lastCol]
+  | cons v vs ih =>
+    intro fs col h
+    cases fs with
+    | nil => simp at h
+    | cons f fs =>
+      simp only [List.zip_cons_cons, lastCol]
+      rw [ih fs v (by simpa using h)]
+      simp
+
+/-- the traced path alone -/
+def tbP (kL : Nat) : List (List Nat × List Nat) → List Nat
+  | [] => [kL]
+  | cf :: rest => ix cf.2 ((tbP kL rest).headD 0) :: tbP kL rest
+
+theorem tbK_path (kL : Nat) (w : Nat → Nat) : ∀ (mats : List (List Nat × List Nat)) (col : List Nat),
+    (tbK kL w col mats).1 = tbP kL mats := by
+  intro mats
+  induction mats with
+  | nil => intro col; rfl
+  | cons cf rest ih => intro col; simp only [tbK, tbP, ih]
+
+end RbV.Hmm
